@@ -26,7 +26,7 @@ CHECKS = {
         "ref": "DESIGN.md section 2, C03",
         "note": "Trusted: ast, path enumeration without test correlation (conservative), bit-slice domain. "
                 "Direct (parser preload) writes are outside the boundary rule.",
-        "technique": "static analysis: must-pass-through path rule + bit-slice abstract interpretation + sibling agreement + dataflow normal forms (sa.symflow) for fill/write-back/configuration",
+        "technique": "static analysis: must-pass-through path rule + bit-slice abstract interpretation + sibling agreement + dataflow normal forms (sa.symflow) for fill/write-back/configuration + reset completeness of the cache systems (R03.reset) + DecodedAddress run in the abstract interpreter (locals, named constants)",
     },
     "C07": {
         "text": "Decides the clauses of the schedule visible in the code's shape: exactly one cycle tick per "
@@ -38,7 +38,7 @@ CHECKS = {
         "ref": "DESIGN.md section 2, C07",
         "note": "Trusted: ast, constant folding, path enumeration. The stall countdown arithmetic inside "
                 "Pipeline.step is value-level.",
-        "technique": "static analysis: who-may-write + dominance + constant-agreement rules + reference comparison of Pipeline.step and the stage datapath on dataflow normal forms (truth/decision tables) + truth-function comparison of the interlock condition",
+        "technique": "static analysis: who-may-write + dominance + constant-agreement rules + reference comparison of Pipeline.step and the stage datapath on dataflow normal forms (truth/decision tables) + truth-function comparison of the interlock condition + who-may-write of the performance-metrics binding (R07.metrics)",
     },
     "C09": {
         "text": "Decides the accounting discipline structurally and exhaustively over paths: on each of the 53 "
@@ -50,7 +50,7 @@ CHECKS = {
                 "memory. Equality with a reference cache's hit sequence is history-dependent and not decided.",
         "ref": "DESIGN.md section 2, C09",
         "note": "Trusted: ast, path enumeration (uncorrelated tests only add paths).",
-        "technique": "static analysis: statistic updates as normal-form stores with truth-function conditions (helpers inlined) + who-may-write + call-site enumeration + reference comparison of the cache lookups and the set's hit decision on dataflow normal forms + MEM stage datapath (memory_access exactly once)",
+        "technique": "static analysis: statistic updates as normal-form stores with truth-function conditions (helpers inlined) + who-may-write + call-site enumeration + reference comparison of the cache lookups and the set's hit decision on dataflow normal forms + MEM stage datapath (memory_access exactly once) + who-may-write of the performance-metrics binding (R09.metrics)",
     },
     "C10": {
         "text": "Only the coupling and self-consistency clauses: the set notifies the policy on every hit and "
@@ -61,7 +61,7 @@ CHECKS = {
                 "reachable policy states and is not decided.",
         "ref": "DESIGN.md section 2, C10",
         "note": "Trusted: ast, normal forms, abstract interpreter. LRU.access is compared with enumerated reference forms of move-to-young-end (compared by value); an unrecognised formulation is reported as a violation (fail-closed).",
-        "technique": "static analysis: reference comparison of CacheSet.read/write and of LRU.access (enumerated reference forms) on dataflow normal forms + abstract interpretation of both PLRU walks (affine forms over bit symbols, depths 0..4) + who-may-write of the policy state + who-may-call",
+        "technique": "static analysis: reference comparison of CacheSet.read/write and of LRU.access (enumerated reference forms) on dataflow normal forms + abstract interpretation of both PLRU walks (affine forms over bit symbols, depths 0..4) + who-may-write of the policy state + who-may-call + reset completeness of the caches (R10.reset: policy objects are rebuilt)",
     },
     "C11": {
         "text": "Decides: exactly one guarded read_instruction per executed instruction on every path of the IF "
@@ -71,7 +71,7 @@ CHECKS = {
                 "memory with no other mutable field. Hit counts against a reference cache are not decided.",
         "ref": "DESIGN.md section 2, C11",
         "note": "Trusted: ast, path enumeration. CLI display fetch is a tabled exemption.",
-        "technique": "static analysis: call-site enumeration + path rules + reset-completeness + loop-normalised normal form of the block fill",
+        "technique": "static analysis: call-site enumeration + path rules + reset-completeness + loop-normalised normal form of the block fill + who-may-write of the performance-metrics binding (R11.metrics)",
     },
     "C12": {
         "text": "Decides the mechanisms per path: write-through writes lower memory exactly once with the caller's "
@@ -101,7 +101,7 @@ CHECKS = {
                 "equality at instruction boundaries by value is not decided.",
         "ref": "DESIGN.md section 2, C20",
         "note": "Trusted: ast, sa.effects, sa.paths.",
-        "technique": "static analysis: typestate/guard dominance over structured paths + who-may-write",
+        "technique": "static analysis: typestate/guard dominance over structured paths + who-may-write + who-may-write of the TOY counters (R20.cost: stepped by the half steps themselves)",
     },
     "C01": {
         "text": "Decides the ISA clauses visible in the code's shape for all operands at once: a normal form of "
@@ -116,7 +116,7 @@ CHECKS = {
         "ref": "DESIGN.md section 2, C01",
         "note": "Trusted: ast, the ISA table in sa/rules/c01.py, sa.rvnf cast-erasure rules, fixedint semantics. "
                 "CSR*/FENCE/EBREAK out of scope as in the property.",
-        "technique": "static analysis: normal-form extraction vs ISA table + bit-slice abstract interpretation of the format constructors + who-may-write + truth-function comparison of done()",
+        "technique": "static analysis: normal-form extraction vs ISA table + bit-slice abstract interpretation of the format constructors + who-may-write + truth-function comparison of done() + accessor table and run loop shared with C18/C13 (R01.acc, R01.run)",
     },
     "C02": {
         "text": "Decides sibling agreement of the two implementations of each of the 45 in-scope instruction classes "
@@ -130,7 +130,7 @@ CHECKS = {
         "ref": "DESIGN.md section 2, C02",
         "note": "Trusted: ast, sa.rvnf, sa.effects, fixedint semantics. The composition hard-codes the stage muxes, "
                 "which R02.mux checks as shapes of the stage code.",
-        "technique": "static analysis: sibling cross-check by normal forms + stage datapath table and Pipeline.step reference on dataflow normal forms + effect confinement + constant agreement",
+        "technique": "static analysis: sibling cross-check by normal forms + stage datapath table and Pipeline.step reference on dataflow normal forms + effect confinement + constant agreement + finally-restoring dispatch helper (R02.fault) + linear arithmetic over condition atoms with value-range facts (sa.ranges)",
     },
     "C04": {
         "text": "Decides: agreement of grammar mnemonics / instruction_map / pseudo handlers; exhaustive and well-typed "
@@ -142,7 +142,7 @@ CHECKS = {
                 "Label addresses by value for arbitrary programs are not enumerated.",
         "ref": "DESIGN.md section 2, C04",
         "note": "Trusted: ast, sa.ppgram model of the pyparsing subset, sa.align.",
-        "technique": "static analysis: grammar IR from AST + template alignment + table agreement + truth functions of the two address passes per entry kind (per-path substitution) + bit-slice evaluation of the lui/addi split + reference comparisons",
+        "technique": "static analysis: grammar IR from AST + template alignment + table agreement + truth functions of the two address passes per entry kind (per-path substitution) + bit-slice evaluation of the lui/addi split + reference comparisons + tokeniser clause (R04.tok: every line tokenised by the parser's own grammar)",
     },
     "C05": {
         "text": "Decides the layout table row by row (element size recorded for name[i], stride, writer, cast per "
@@ -153,7 +153,7 @@ CHECKS = {
                 "constants and R01.immw.",
         "ref": "DESIGN.md section 2, C05",
         "note": "Trusted: ast, consteval, fixedint width reduction.",
-        "technique": "static analysis: per-row table agreement + bit-slice evaluation of backward slices (lui/addi split) + residue analysis mod 4 of the layout counter (abstract interpretation) + constant folding",
+        "technique": "static analysis: per-row table agreement + bit-slice evaluation of backward slices (lui/addi split) + residue analysis mod 4 of the layout counter (abstract interpretation) + constant folding + cache-system reset clause in R05.base + per-width accessor fallback of R05.types",
     },
     "C06": {
         "text": "Decides: the instruction register is only loaded by decoding memory[pc] under pc <= max_pc (self-"
@@ -198,7 +198,7 @@ CHECKS = {
                 "front-end classification. IndexError/TypeError sites of ordinary subscripts are not enumerated.",
         "ref": "DESIGN.md section 2, C15",
         "note": "Trusted: ast, CPython literal syntax as modelled, sa.ppgram, sa.effects closure.",
-        "technique": "static analysis: regular-language inclusion + raise-site enumeration over the call graph + def-use / provenance (line numbers, str-or-ParseResults entries) + reference comparison of the raise effects of Pipeline.step",
+        "technique": "static analysis: regular-language inclusion + raise-site enumeration over the call graph + def-use / provenance (line numbers, str-or-ParseResults entries) + reference comparison of the raise effects of Pipeline.step + sibling agreement of the cached accesses (R15.sib) + assert discharge by abstract interpretation of the backward slice + library calls on the load path",
     },
     "C17": {
         "text": "Decides: ascending order by construction (iteration over sorted(..)), agreement between the width each "
@@ -228,7 +228,7 @@ CHECKS = {
                 "over all 2^16 words without enumerating them; assembler placement rules as shapes.",
         "ref": "DESIGN.md section 2, C19",
         "note": "Trusted: ast, consteval, bitslice.",
-        "technique": "static analysis: table agreement + bit-slice abstract interpretation (fields, decode per opcode) + truth functions of the label pass per entry kind",
+        "technique": "static analysis: table agreement + bit-slice abstract interpretation (fields, decode per opcode) + truth functions of the label pass per entry kind + tokeniser clause (R19.tok) + operand conversion read off the normal form under the 0x / non-0x assumption",
     },
 }
 
